@@ -198,6 +198,7 @@ def render_class(name, iface, rng):
 
 
 def render_function(name, iface, rng, first=None):
+    ret = rng.choice(["    return None", "    return None", None, "    pass"])
     sig = ([first] if first else []) + ["%s: %s = %r" % (n, p["typ"], p["default"]) for n, p in iface["params"].items()]
     lines = ["def %s(%s):" % (name, ", ".join(sig)), '    """', "    %s" % iface["doc"], ""]
     for n, p in iface["params"].items():
@@ -206,7 +207,8 @@ def render_function(name, iface, rng, first=None):
             lines.append("    :type %s: ```%s```" % (n, p["typ"]))
         lines.append("")
     lines.append('    """')
-    lines.append("    return None")
+    if ret:
+        lines.append(ret)
     return "\n".join(lines) + "\n"
 
 
@@ -247,7 +249,8 @@ def build_file(rng, kind, name, iface, state):
     after = [rng.choice(UNRELATED_TOP) for _ in range(n_after)]
     if state == "absent":
         body = before + after or ["LIMIT = 10\n"]
-        return "\n".join(parts + body)
+        text = "\n".join(parts + body)
+        return text.rstrip("\n") if rng.random() < 0.1 else text
     if kind == "class":
         tgt = render_class(path[-1], iface, rng)
     elif kind == "argparse_function":
@@ -270,8 +273,8 @@ def build_file(rng, kind, name, iface, state):
 def build_case(rng, k):
     truth = rng.choice(KINDS)
     names = {"class": rng.choice(CLASS_NAMES), "function": rng.choice(METHOD_PATHS), "argparse_function": rng.choice(ARGPARSE_NAMES)}
-    if rng.random() < 0.05:
-        names["function"] = " " + names["function"].replace(".", " . ")  # strip_split
+    if truth != "function" and rng.random() < 0.08:
+        names["function"] = " " + names["function"].replace(".", " . ")  # targets go through strip_split (the truth's name does not)
     ifaces, states, used = {}, {}, []
     for kind in KINDS:
         ifaces[kind] = gen_iface(rng, exclude=used if rng.random() < 0.8 else ())
@@ -426,6 +429,39 @@ def resolve(mod, path):
     return node
 
 
+def is_python(text):
+    try:
+        ast.parse(text)
+        return True
+    except SyntaxError:
+        return False
+
+
+def resolve_text(text, path):
+    try:
+        return resolve(ast.parse(text), path) is not None
+    except SyntaxError:
+        return False
+
+
+def truth_quirk(case):
+    """the truth is a method (dotted path) whose class comes after a top-level `def`: find_in_ast pops the path component at that def"""
+    t = case["truth"]
+    path = [c for c in case["names"][t].split(".")]
+    if t == "class" or len(path) < 2 or case["files"][t] is None:
+        return False
+    try:
+        body = ast.parse(case["files"][t]).body
+    except SyntaxError:
+        return False
+    for s in body:
+        if isinstance(s, ast.FunctionDef):
+            return True
+        if isinstance(s, ast.ClassDef) and s.name == path[0]:
+            return False
+    return False
+
+
 def fn_type(node):
     if not node.args.args:
         return "static"
@@ -556,15 +592,20 @@ def oracle(chk, case, snaps):
     if first["rc"] != 0:
         # which file was being processed? the first one (in order) that a working run would have touched but is untouched
         missing_fn = before["function"] is None
-        fail({"clause": "crash", "exc": first["exc"], "function_file_missing": missing_fn,
-              "states": "/".join(case["states"][k] for k in KINDS) if not missing_fn else "*"},
+        fail({"clause": "crash", "exc": first["exc"], "function_file_missing": missing_fn, "truth_method_after_toplevel_def": truth_quirk(case),
+              "states": "/".join(case["states"][k] for k in KINDS) if not (missing_fn or truth_quirk(case)) else "*"},
              "sync exits %s: %s" % (first["rc"], first["stderr"].strip().splitlines()[-1] if first["stderr"].strip() else ""))
+    invalid = any(first["files"][k] is not None and not is_python(first["files"][k]) for k in KINDS)
     for kind in KINDS:
         name = case["names"][kind]
         path = [c.strip() for c in name.split(".")]
         after = first["files"][kind]
         outcome = classify_outcome(before[kind], after, path)
         sig0 = {"target_kind": kind, "initial": case["states"][kind], "outcome": outcome, "dotted": len(path) > 1}
+        if outcome == "created":
+            sig0["created_under"] = "target-name" if resolve_text(after, path) else "other-name"
+        if before[kind] and not before[kind].endswith("\n"):
+            sig0["no_trailing_newline"] = True
         # (a) valid Python
         if after is not None:
             try:
@@ -572,8 +613,8 @@ def oracle(chk, case, snaps):
             except SyntaxError as e:
                 fail(dict(sig0, clause="valid-python"), "%s is not valid Python after sync: %s" % (FNAME[kind], e))
                 continue
-        if first["rc"] != 0:
-            continue  # the crash is already reported; the other clauses are about completed runs
+        if first["rc"] != 0 or invalid:
+            continue  # the crash / the broken file is already reported; the other clauses are about completed runs on valid files
         # (b) interface of the named target
         if truth_view is not None:
             v, why = parse_target(kind, after, name)
